@@ -53,7 +53,7 @@ var pagerFamilies = []pagerFamily{
 }
 
 var pagerItemKinds = []wc{{"link", 50}, {"plain", 8}, {"decorated", 5}, {"js", 7}, {"empty", 5}, {"offsite", 5}, {"mailto", 3}, {"malformed", 3},
-	{"pattern2", 5}, {"queryonly", 6}, {"fragment", 2}, {"lookalike", 3}, {"userinfo", 3}, {"schemerel", 3}, {"upperhost", 2}, {"relative", 5}, {"otherscheme", 2}, {"padded", 4}, {"docrel", 5}}
+	{"pattern2", 5}, {"queryonly", 6}, {"fragment", 2}, {"lookalike", 3}, {"userinfo", 3}, {"schemerel", 3}, {"upperhost", 2}, {"relative", 5}, {"otherscheme", 2}, {"padded", 4}, {"docrel", 5}, {"withfragment", 4}}
 
 func genPager(t *rapid.T) pagerPage {
 	g := newG(t, articleProfile())
@@ -76,6 +76,13 @@ func genPager(t *rapid.T) pagerPage {
 		switch kind {
 		case "link":
 			return fam.link(base, i)
+		case "withfragment":
+			// a pager link that also names a place in the target page
+			u := fam.link(base, i)
+			if g.chance(50, "fragrel") {
+				u = u[len(base):]
+			}
+			return u + g.pick("fragv", "#content", "#top", "#comments-3")
 		case "padded":
 			// white space around the value is not part of the reference
 			u := fam.link(base, i)
